@@ -21,6 +21,8 @@ def generate(tier, seed):
     cases = []
     for k in range(200 if tier == 'quick' else 3000):
         c = fitcase.gen_case(rng, '3d')
+        if k % 3 == 1:
+            c['fmt'] = 'v2'      # version-2 package (flux cube + convolved files), read by Models._read_version_2
         if k % 12 == 0:   # malformed: smallest aperture above theta*dmin in one band
             j = rng.randrange(len(c['wav']))
             rmin = c['theta'][j] * c['drange'][0] * 1000.0
@@ -195,6 +197,14 @@ def judge(case, im, mo):
                     break
                 d = F(ds[k])
                 bad = False
+                if im.get('rr_ext'):
+                    sf_ = case['src']
+                    used = [f in (1, 4) or (f in (2, 3) and e != 0) for f, e in zip(sf_['flags'], sf_['err'])]
+                    hit = [j for j in range(len(case['wav'])) if used[j] and im['rr_ext'][mid][k][j]]
+                    if hit:
+                        fail.append('resolved: remove_resolved=True reports %s at distance %r kpc although the fitter itself marks it larger than the aperture there in band %d (a band that constrains the fit)'
+                                    % (rr['model_name'][i], ds[k], hit[0]))
+                        break
                 for j in range(len(case['wav'])):
                     sf = _interp_clamp(case['aps'][j], case['flux'][mid][j], F(case['theta'][j]) * d * 1000) / (d * d)
                     want = float(np.log10(float(sf))) + rr['av'][i] * float(ks[j])
@@ -205,4 +215,22 @@ def judge(case, im, mo):
                         break
                 if bad:
                     break
+    # version-2 package through memory-mapped arrays (the Fitter default): the models the fitter itself marks as resolved must be gone
+    mm = im.get('rr_mm')
+    if isinstance(mm, dict) and 'exc' in mm:
+        fail.append('raised: remove_resolved=True on memory-mapped arrays raised %s' % mm['exc'])
+    elif isinstance(mm, dict) and sorted(mm['model_id']) == list(range(len(case['names']))):
+        sf_ = case['src']
+        used = [f in (1, 4) or (f in (2, 3) and e != 0) for f, e in zip(sf_['flags'], sf_['err'])]
+        tags.append('rr-mm')
+        for i, mid in enumerate(mm['model_id']):
+            if not math.isfinite(mm['chi2'][i]) or mm['chi2'][i] >= 1e29:
+                continue
+            k = min(range(len(logds)), key=lambda t: abs(logds[t] - mm['sc'][i]))
+            hit = [j for j in range(len(case['wav'])) if used[j] and im['rr_mm_ext'][mid][k][j]]
+            if hit:
+                fail.append('resolved: remove_resolved=True (memory-mapped arrays) reports %s at distance %r kpc although the fitter itself marks it larger than the aperture there in band %d (a band that constrains the fit)'
+                            % (mm['model_name'][i], ds[k], hit[0]))
+                break
+    tags.append('fmt=' + str(case.get('fmt')))
     return dict(disagree=disagree[:5], fail=fail[:5], nontrivial=nontrivial, tags=tags)
